@@ -249,12 +249,14 @@ func BuildTypeCtxByIndex(typeType *parser.TypeTypeContext, typeCtx *parser.Class
 }
 
 func (s *JavaFullListener) EnterLocalVariableDeclaration(ctx *parser.LocalVariableDeclarationContext) {
-	typ := ctx.GetChild(0).(antlr.ParseTree).GetText()
-	if ctx.GetChild(1) != nil {
-		if ctx.GetChild(1).GetChild(0) != nil && ctx.GetChild(1).GetChild(0).GetChild(0) != nil {
-			variableName := ctx.GetChild(1).GetChild(0).GetChild(0).(antlr.ParseTree).GetText()
-			localVars[variableName] = typ
-		}
+	// the type follows the modifiers (final B b), and one declaration may declare several variables (B m1 = …, m2 = …)
+	if ctx.TypeType() == nil {
+		return
+	}
+	typ := ctx.TypeType().GetText()
+	for _, declarator := range ctx.VariableDeclarators().(*parser.VariableDeclaratorsContext).AllVariableDeclarator() {
+		declaratorId := declarator.(*parser.VariableDeclaratorContext).VariableDeclaratorId().(*parser.VariableDeclaratorIdContext)
+		localVars[declaratorId.Identifier().GetText()] = typ
 	}
 }
 
